@@ -91,12 +91,37 @@ func realConfig(op *wire.Rec) *model.SimConfig {
 	chars, lcs := op.List("chars"), op.List("lcs")
 	eid, lvl := op.Ints("eidols"), op.Ints("levels")
 	relics := strings.Split(op.Str("relics"), ";")
+	// optional-field variations (quirk bits): 1 a trace choice (tmask) with a duplicate and an unknown id, 2 level fields left
+	// unset (0), 4 relic sub stats, 8 a start HP ratio, 16 ability levels left unset, 32 enemy level unset / elite rank / resistances
+	quirk, tmask := op.Int("quirk"), op.Int("tmask")
+	allTraces := []string{"101", "102", "103", "201", "202", "203", "204", "205", "206", "207", "208", "209", "210"}
 	for i, c := range chars {
-		ch := &model.Character{Key: c, Level: uint32(lvl[i]), MaxLevel: uint32(lvl[i]), Eidols: uint32(eid[i]),
-			Traces:    []string{"101", "102", "103", "201", "202", "203", "204", "205", "206", "207", "208", "209", "210"},
-			Abilities: &model.Abilities{Attack: uint32(op.Int("abil")), Skill: uint32(op.Int("abil")), Ult: uint32(op.Int("abil")), Talent: uint32(op.Int("abil"))},
-			LightCone: &model.LightCone{Key: lcs[i], Level: uint32(lvl[i]), MaxLevel: uint32(lvl[i]), Imposition: uint32(1 + i%5)},
+		traces := allTraces
+		if quirk&1 != 0 {
+			traces = nil
+			for k, t := range allTraces {
+				if tmask&(1<<k) != 0 {
+					traces = append(traces, t)
+				}
+			}
+			traces = append(traces, "101", "999", "101")
+		}
+		abil := uint32(op.Int("abil"))
+		if quirk&16 != 0 {
+			abil = 0
+		}
+		level := uint32(lvl[i])
+		if quirk&2 != 0 && i%2 == 0 {
+			level = 0
+		}
+		ch := &model.Character{Key: c, Level: level, MaxLevel: level, Eidols: uint32(eid[i]),
+			Traces:    traces,
+			Abilities: &model.Abilities{Attack: abil, Skill: abil, Ult: abil, Talent: abil},
+			LightCone: &model.LightCone{Key: lcs[i], Level: level, MaxLevel: level, Imposition: uint32(1 + i%5)},
 			StartEnergy: float64(op.Int("energy"))}
+		if quirk&8 != 0 {
+			ch.StartHp = []float64{0.5, 0, 2.0, 0.01}[i%4]
+		}
 		if i < len(relics) && relics[i] != "" && relics[i] != "-" {
 			for _, rk := range strings.Split(relics[i], "/") {
 				n := 2
@@ -105,7 +130,11 @@ func realConfig(op *wire.Rec) *model.SimConfig {
 					rk = rk[:i]
 				}
 				for j := 0; j < n; j++ {
-					ch.Relics = append(ch.Relics, &model.Relic{Key: rk, MainStat: &model.RelicStat{Stat: model.Property_ATK_PERCENT, Amount: 0.1}})
+					rl := &model.Relic{Key: rk, MainStat: &model.RelicStat{Stat: model.Property_ATK_PERCENT, Amount: 0.1}}
+					if quirk&4 != 0 {
+						rl.SubStats = []*model.RelicStat{{Stat: model.Property_SPD_FLAT, Amount: 2.5}, {Stat: model.Property_CRIT_CHANCE, Amount: 0.03}, {Stat: model.Property_HP_PERCENT, Amount: 0.04}}
+					}
+					ch.Relics = append(ch.Relics, rl)
 				}
 			}
 		}
@@ -114,6 +143,14 @@ func realConfig(op *wire.Rec) *model.SimConfig {
 	for i, e := range op.List("enemies") {
 		en := &model.Enemy{Key: e, Level: uint32(op.Int("elevel")), BaseStats: &model.BaseStats{Hp: float64(op.Int("ehp")), Spd: 100 + float64(10*i)},
 			Weaknesses: []model.DamageType{model.DamageType(1 + (i+op.Int("seed"))%7)}}
+		if quirk&32 != 0 {
+			if i%2 == 0 {
+				en.Level = 0
+			}
+			en.Rank = model.EnemyRank_ELITE
+			en.DebuffRes = []*model.DebuffRES{{Flag: model.BehaviorFlag_STAT_CTRL, Amount: 0.5}}
+			en.Weaknesses = append(en.Weaknesses, en.Weaknesses[0], model.DamageType(1+(i+3)%7))
+		}
 		cfg.Enemies = append(cfg.Enemies, en)
 	}
 	return cfg
@@ -489,18 +526,23 @@ type realSpec struct {
 	abil, energy        int
 	elevel, ehp         int
 	cycles, seed        int
+	quirk, tmask        int // optional-field variations of the configuration (see realConfig)
 	script              string
 }
 
 func (s realSpec) rec(name string) *wire.Rec {
 	return wire.R(name).Ss("chars", s.chars).Ss("lcs", s.lcs).Is("eidols", s.eidols).Is("levels", s.levels).S("relics", strings.Join(s.relics, ";")).
-		I("abil", s.abil).I("energy", s.energy).Ss("enemies", s.enemies).I("elevel", s.elevel).I("ehp", s.ehp).I("cycles", s.cycles).I("seed", s.seed).S("script", hexs(s.script))
+		I("abil", s.abil).I("energy", s.energy).Ss("enemies", s.enemies).I("elevel", s.elevel).I("ehp", s.ehp).I("cycles", s.cycles).I("seed", s.seed).I("quirk", s.quirk).I("tmask", s.tmask).S("script", hexs(s.script))
 }
 
 func realSpecGen(r *rand.Rand, chars, lcs, relics []string) realSpec {
 	n := 1 + r.Intn(4)
 	s := realSpec{abil: pick(r, 1, 5, 9, 10, 15), energy: pick(r, 0, 50, 200), elevel: pick(r, 1, 1, 50, 80, 95), ehp: pick(r, 50, 500, 2000, 20000, 100000, 1000000),
 		cycles: pick(r, 1, 2, 3, 5, 8), seed: r.Intn(100000)}
+	if r.Intn(3) == 0 {
+		s.quirk = r.Intn(64)
+		s.tmask = r.Intn(1 << 13)
+	}
 	perm := r.Perm(len(chars))
 	for i := 0; i < n && i < len(perm); i++ {
 		s.chars = append(s.chars, chars[perm[i]])
